@@ -79,6 +79,7 @@ def run(chk: core.Check, tier: str, seed: int) -> None:
     recs += [impl.rec_compile(jp, core.dec_text(g["q"])) for g in ugens if g["why"] != "syntax"]
     chk.notes["unit_texts_calls"] = sum(1 for g in ugens if g["why"] != "syntax")
     from .. import corpus  # noqa: PLC0415
+    recs += [impl.rec_compile(jp, q) for q in corpus.typed_builtin_texts()]
     bl = [("bl", ["L"], "L")]
     bl_env = probes.make_env(jp, bl, [])
     recs += [impl.rec_compile(jp, q, env=bl_env, extra={"reg": probes.reg_records(bl)}) for q in corpus.logical_param_skeletons(rng)]
